@@ -22,6 +22,17 @@
    Sample i is handed exactly the i-th spawned child of SeedSequence(seed_qoperation) - the stream the model's qop_key names - and the
    returned list is the concatenation of the samples' results in sample order (the model's flow_spec), for any sample count.
 
+   Fifth part (dispatch of the sample's stream to the generation settings), regenerated from
+     quara/simulation/standard_qtomography_simulation_flow.py : _generate_with_stream  (its test _takes_stream is checked textually)
+   A setting whose generate takes the stream makes exactly one draw on the stream it is handed, any other setting makes no draw on any
+   stream (in particular not on np.random); served one after the other with the sample's spawned stream, the true object and the
+   testers receive exactly the keys qop_key of the dataflow model, for every mix of noise methods.
+
+   Sixth part (objects handed to the estimation tasks), regenerated from
+     quara/simulation/standard_qtomography_simulation.py : execute_estimation  (the task list of its joblib.Parallel call)
+   Every repetition's task receives its OWN deep copy of estimator, loss and algo; hence, whatever interleaving of the tasks' load /
+   optimise steps a thread backend produces, every task optimises over its own data.
+
    Second part (stream dataflow), regenerated from
      quara/utils/number_util.py : to_stream
      quara/protocol/qtomography/standard/standard_{qst,povmt,qpt,qmpt}.py : generate_empi_dists_sequence
@@ -318,3 +329,71 @@ Proof. intros c s H. unfold qop_key, seeded_at, py_spawn_streams. rewrite H. cbn
 
 Print Assumptions gen_test_setting_unit_spec.
 Print Assumptions gen_test_setting_unit_streams_are_model_keys.
+
+(* ==================================================================== the sample's stream handed to the generation settings *)
+Theorem gen_generate_with_stream_spec : forall origin takes s st,
+  gen_generate_with_stream origin takes (VStream s) st =
+  if takes then (let (k, st') := draw_stream origin s st in (GKey k, st')) else (GNoRandom, st).
+Proof. intros origin takes s st. unfold gen_generate_with_stream, setting_generate, setting_generate_default.
+  destruct takes; cbn [experiment_draw]; unfold sbind, sret; [destruct (draw_stream origin s st)|]; reflexivity. Qed.
+
+Lemma firstn_as_map (l : list bool) : forall j, (j <= length l)%nat -> map (fun i => nth i l false) (seq 0 j) = firstn j l.
+Proof. induction l as [|b t IH]; intros j Hj.
+  - cbn in Hj. assert (j = 0%nat) by lia. subst. reflexivity.
+  - destruct j as [|j]; [reflexivity|]. cbn [seq map firstn nth]. f_equal. rewrite <- seq_shift, map_map. cbn [nth].
+    apply IH. cbn in Hj. lia. Qed.
+
+Lemma smapM_settings_keys seed smp : forall flags u st, s_arg st = u ->
+  fst (smapM (fun t => gen_generate_with_stream (seed, [smp], 0%nat) t (VStream SArg)) flags st) =
+  map (fun j => if nth j flags false then GKey (KSeed seed [smp] (u + count_true (firstn j flags))) else GNoRandom) (seq 0 (length flags)).
+Proof. induction flags as [|t rest IH]; intros u st Hu; [reflexivity|].
+  cbn [smapM length seq map]. unfold sbind at 1. rewrite gen_generate_with_stream_spec.
+  destruct t.
+  - cbn [draw_stream]. unfold sbind at 1.
+    specialize (IH (S u) {| s_amb := s_amb st; s_arg := S (s_arg st); s_new := s_new st |}).
+    destruct (smapM _ rest _) as [bs st'] eqn:E. cbn [fst] in IH. unfold sret. cbn [fst nth firstn]. rewrite IH by (cbn; lia).
+    f_equal; [unfold count_true; cbn; rewrite Hu; do 2 f_equal; lia|].
+    rewrite <- seq_shift, map_map. apply map_ext. intros j. cbn [nth firstn]. destruct (nth j rest false); [|reflexivity].
+    unfold count_true. cbn [filter length]. do 2 f_equal. lia.
+  - unfold sbind at 1. specialize (IH u st Hu). destruct (smapM _ rest st) as [bs st'] eqn:E. cbn [fst] in IH. unfold sret. cbn [fst nth]. rewrite IH.
+    f_equal. rewrite <- seq_shift, map_map. apply map_ext. intros j. cbn [nth firstn]. destruct (nth j rest false); [|reflexivity].
+    unfold count_true. cbn [filter length]. reflexivity. Qed.
+
+(* the true object (index 0) and the testers, served in this order with the stream spawned for sample smp, draw exactly from the
+   keys the dataflow model assigns: every mix of noise methods *)
+Theorem gen_generate_with_stream_keys : forall c smp,
+  fst (smapM (fun t => gen_generate_with_stream (f_seed_qop c, [smp], 0%nat) t (VStream SArg)) (f_true_seeded c :: f_tester_seeded c) st0)
+  = map (qop_key c smp) (seq 0 (S (length (f_tester_seeded c)))).
+Proof. intros c smp. rewrite (smapM_settings_keys (f_seed_qop c) smp _ 0 st0 eq_refl). cbn [length].
+  apply map_ext_in. intros j Hj. apply in_seq in Hj. unfold qop_key.
+  assert (Es : forall i, seeded_at c i = nth i (f_true_seeded c :: f_tester_seeded c) false) by (intros [|i]; reflexivity).
+  rewrite Es. destruct (nth j (f_true_seeded c :: f_tester_seeded c) false); [|reflexivity].
+  do 3 f_equal. rewrite (map_ext _ (fun i => nth i (f_true_seeded c :: f_tester_seeded c) false) Es).
+  rewrite firstn_as_map by (cbn [length]; lia). reflexivity. Qed.
+
+Print Assumptions gen_generate_with_stream_spec.
+Print Assumptions gen_generate_with_stream_keys.
+
+(* ==================================================================== the objects handed to the estimation tasks *)
+Theorem gen_execute_estimation_private_copies : forall n t, (t < n)%nat ->
+  nth_error (gen_execute_estimation_tasks n) t = Some {| t_estimator := OFresh; t_loss := OFresh; t_algo := OFresh |}.
+Proof. intros n t Ht. unfold gen_execute_estimation_tasks.
+  rewrite (nth_error_nth' _ gen_execute_estimation_task) by now rewrite repeat_length.
+  f_equal. destruct (nth_in_or_default t (repeat gen_execute_estimation_task n) gen_execute_estimation_task) as [Hin|E].
+  - apply repeat_spec in Hin. rewrite Hin. unfold gen_execute_estimation_task. reflexivity.
+  - rewrite E. reflexivity. Qed.
+
+Theorem gen_execute_estimation_loss_registers : forall n t, (t < n)%nat -> loss_register (gen_execute_estimation_tasks n) t = Some t.
+Proof. intros n t Ht. unfold loss_register. now rewrite gen_execute_estimation_private_copies. Qed.
+
+(* transported: for any number of repetitions and EVERY program-ordered interleaving of their load / optimise steps, each task of
+   execute_estimation as translated optimises over its own data *)
+Theorem gen_execute_estimation_race_free : forall n sched,
+  (forall s, In s sched -> (step_task s < n)%nat) -> program_order [] sched = true ->
+  all_own (run_objs (loss_register (gen_execute_estimation_tasks n)) (fun _ => None) sched).
+Proof. intros n sched Hb Hp. apply (run_objs_private_race_free _ sched [] (fun _ => None)); [|exact Hp|intros t []].
+  intros s Hs. apply gen_execute_estimation_loss_registers. now apply Hb. Qed.
+
+Print Assumptions gen_execute_estimation_private_copies.
+Print Assumptions gen_execute_estimation_loss_registers.
+Print Assumptions gen_execute_estimation_race_free.
